@@ -30,7 +30,7 @@ WITH_DIST = ("dvar", "wdvar")
 VAR_KINDS = ("svar", "dvar", "wvar", "wdvar", "pitvar")
 
 
-def spec_strategy(min_nodes=4, max_nodes=14, allow_seed=True, allow_groups=False, allow_unnamed=True):
+def spec_strategy(min_nodes=4, max_nodes=14, allow_seed=True, allow_groups=False, allow_unnamed=True, allow_own_key=False):
     from hypothesis import strategies as st
 
     @st.composite
@@ -73,6 +73,8 @@ def spec_strategy(min_nodes=4, max_nodes=14, allow_seed=True, allow_groups=False
                 name = f"x{i}"
             d = {"kind": kind, "name": name, "inputs": ins, "coef": [draw(st.integers(0, 9))] + [draw(st.integers(1, 3)) for _ in ins],
                  "shape": shape, "value": draw(st.integers(0, 30)), "group": None, "custom": kind in ("wvar", "wdvar") and draw(st.integers(0, 2)) == 0}
+            if allow_own_key and kind == "scalc" and draw(st.booleans()):
+                d["own_key"] = True      # the seeded node brings its own `seed` input (the model then injects none)
             if allow_groups and draw(st.integers(0, 4)) == 0:
                 d["group"] = draw(st.sampled_from(["g1", "g2"]))
             decls.append(d)
@@ -188,6 +190,8 @@ class Built:
         if k == "calc":
             return lsl.Calc(self._counted(i, fn), *pos, _name=d["name"], **kws)
         if k == "scalc":
+            if d.get("own_key"):
+                kws = dict(kws, seed=lsl.Value(jax.random.PRNGKey(100 + i), _name=f"user_key_{i}"))
             return lsl.Calc(self._counted(i, fn), *pos, _name=d["name"], _needs_seed=True, **kws)
         if k == "unode":
             return UserNode(self._counted(i, fn), *pos, _name=d["name"], **kws)
